@@ -685,6 +685,11 @@ package tree
 //@     invariant [found_so_far] (n2 == nil && (forall k int :: {n.br[k]} 0 <= k && k <= rangeindex ==> n.br[k].right != n)) || (n2 != nil && (exists k int :: 0 <= k && k <= rangeindex && n.br[k].right == n && n.br[k].left == n2) && (forall k int :: {n.br[k]} 0 <= k && k <= rangeindex && n.br[k].right == n ==> n.br[k].left == n2))
 
 // the name cache used by the editing functions (interface NodeIndex; thin)
+// a rearrangement proposed by an enumeration: applying and cancelling it edit the tree (nni.Apply / nni.Undo are the only implementation, verified for C17)
+//@ func iface:tree.Rearrangement.Apply
+//@   flag treeop
+//@ func iface:tree.Rearrangement.Undo
+//@   flag treeop
 //@ func iface:tree.NodeIndex.GetNode
 //@   assigns nothing
 //@ func iface:tree.NodeIndex.AddNode
@@ -1807,10 +1812,29 @@ package tree
 //@   call (*tree.Tree).ReinitIndexes [the_star_is_indexed] a0 == star
 //@   loop 1
 //@     complete [all_iterations_no_early_exit]
+// AllTipNames / allTipNamesRecur: the names are collected in storage of the call's own; a tip reached contributes its
+// name next, an inner node sends the walk to every neighbour other than the one it came from; nothing of the tree is written
+//@ func (*tree.Tree).allTipNamesRecur
+//@   requires t != nil && names != nil && INV12() && (n != nil || t.root != nil) && (n == nil || allocated(n)) && (t.root == nil || allocated(t.root))
+//@   allocates []string
+//@   assigns cell(names), elems(*names)
+//@   ensures [the_listed_prefix_is_kept] len(*names) >= old(len(*names)) && (forall k int :: {(*names)[k]} {old((*names)[k])} 0 <= k && k < old(len(*names)) ==> (*names)[k] == old((*names)[k]))
+//@   ensures [the_name_of_a_tip_reached_is_listed_next_and_nothing_else] len((n == nil ? t.root : n).neigh) == 1 ==> len(*names) == old(len(*names)) + 1 && (*names)[old(len(*names))] == (n == nil ? t.root : n).name
+//@   ensures [the_list_stays_in_storage_of_its_own] arr(*names) == old(arr(*names)) || fresh_arr(*names)
+//@   call (*tree.Tree).allTipNamesRecur [goes_to_every_neighbour_but_the_one_it_came_from] a1 == names && a2 == child && child != parent && a3 == (n == nil ? t.root : n)
+//@   loop 1
+//@     complete [all_iterations_no_early_exit]
+//@     assigns cell(names), elems("string")
+//@     invariant [only_the_list_s_own_storage_is_written] oldarrays_same("string", *names)
+//@     invariant [list_private] arr(*names) == old(arr(*names)) || fresh_arr(*names)
+//@     invariant [prefix_kept] len(*names) >= old(len(*names)) && (forall k int :: {(*names)[k]} 0 <= k && k < old(len(*names)) ==> (*names)[k] == old((*names)[k]))
+//@     invariant [still_well_formed] INV12() && t != nil && names != nil && n != nil && allocated(n)
 //@ func (*tree.Tree).AllTipNames
 //@   requires t != nil
-//@   allocates []string, []*Node
+//@   entry [well_formed_tree] t.root != nil && allocated(t.root) && INV12()
+//@   allocates []string
 //@   assigns nothing
+//@   ensures [fresh_storage] fresh_arr(result)
 // AddBipartition (property C09): every listed branch is detached from n and re-created between the new node and its
 // far end, in the same direction, with the length, support and p-value it had; the new node is joined to n by a
 // branch carrying the given length and support, oriented away from n unless one of the moved branches pointed into n
